@@ -105,7 +105,14 @@ def run_direct(chk, n_cfg):
             wrote = [False]
             orig_send = conn.socket.send
 
-            def send(data, orig=orig_send):
+            # sometimes the socket fails (peer gone), on a live connection or while disconnect() is flushing (connected False):
+            # the packet was not written, so the ordinary outgoing listeners must not hear of it and the error reaches the caller
+            fault = rng.random() < 0.3
+            conn.connected = rng.random() < 0.5
+
+            def send(data, orig=orig_send, fault=fault, k=k):
+                if fault:
+                    raise BrokenPipeError(32, 'Broken pipe')
                 if not wrote[0]:
                     log.append(('W', k))
                     wrote[0] = True
@@ -115,17 +122,24 @@ def run_direct(chk, n_cfg):
                 conn._write_packet(p)
             except Boom as e:
                 outcome = [2, e.code]
+            except OSError:
+                outcome = ['io']
             except Exception as e:
                 outcome = ['unexpected', exn_name(e)]
             conn.socket.send = orig_send
             got = ([list(x) for x in log], outcome)
             reqs.append(('write_out', [rel, mk(True, True), mk(False, True), [], [k, ci]]))
-            metas.append(('out', cfg, got, {'listeners': [[i, e, o, flt, {str(kk): str(v) for kk, v in beh.items()}] for i, e, o, flt, beh in ls], 'packet': [k, ci]}))
+            metas.append(('out', cfg, got, {'listeners': [[i, e, o, flt, {str(kk): str(v) for kk, v in beh.items()}] for i, e, o, flt, beh in ls], 'packet': [k, ci],
+                                            'socket_fails': fault, 'connected': conn.connected}))
     res = run_model(reqs)
     for (kind, cfg, got, case), r in zip(metas, res):
         ev, oc = r
         exp_log = [['L', e[1], e[2]] if e[0] == 0 else ['R', e[1]] if e[0] == 1 else ['W', e[1]] for e in ev]
         exp_out = [0] if oc[0] in (0, 1) else [2, oc[1]]      # IgnorePacket is swallowed: the caller sees a normal return
+        if case.get('socket_fails') and any(e[0] == 'W' for e in exp_log):
+            exp_log = exp_log[:next(i for i, e in enumerate(exp_log) if e[0] == 'W')]
+            exp_out = ['io']
+            chk.tally('out:socket-failed')
         nmatch = sum(1 for e in exp_log if e[0] == 'L')
         chk.count(kind, case, nmatch >= 2)
         chk.tally('%s:%s' % (kind, ['done', 'ignored', 'raised'][oc[0]]))
